@@ -20,7 +20,7 @@ def parents (pfxBits : Nat) (pfx : BitVec 64) (split merge : Bool) : Option (Lis
       if split then some [shardParent s] else some [s]
     else some [shardChild s true, shardChild s false]
 
-def c17Handlers : List (String × Handler) := [
+def opsC17 : List (String × Handler) := [
   ("shard.parents", fun
     | [b, p, sp, mg] => match b.toNat?, u64Arg p with
       | some bits, some pfx => match parents bits pfx (sp == "1") (mg == "1") with
